@@ -78,6 +78,9 @@ def call_requests(shs, tier, seed):
                 elif r < 0.36:
                     # equal in the sense of the field's strategy but not identical: only skipped nested parts differ
                     v = shapes.mutate_inner(f, cur[j + 1], rnd, only_skipped=True)
+                    if f['k'] == 'unord' and f['cont'] not in ('HashSet', 'BTreeSet') and len(cur[j + 1]) > 2:
+                        # the same multiset in another element order: no change for the strategy, another value for the container
+                        l = list(cur[j + 1][1:]); rnd.shuffle(l); v = ['l'] + l
                 elif r < 0.7:
                     v = shapes.mutate_field(f, cur[j + 1], rnd)
                 else:
